@@ -821,3 +821,62 @@ def carrier_sync(ctx):
                    key='%s-mat-%s' % (mname, wa),
                    why='%s (with_altitude=%s): attitude matrix buffer does not match the Euler '
                        'angles stored in the trajectory' % (mname, wa))
+
+
+def _is_last(e, table_txt):
+    """index expression denoting the last row: -1 or len(<table>) - 1"""
+    if isinstance(e, ast.UnaryOp) and isinstance(e.op, ast.USub) and \
+            isinstance(e.operand, ast.Constant) and e.operand.value == 1:
+        return True
+    t = norm_text(e).replace(' ', '')
+    return t in ('len(%s)-1' % table_txt, 'len(%s.index)-1' % table_txt,
+                 '%s.shape[0]-1' % table_txt)
+
+
+def last_row(ctx):
+    """The accessors of the integrator address the latest row: the schedulers take
+    get_time() / get_pva() as 'the state after the last applied increment'."""
+    ctx.rule('LAST-ROW', 'Integrator.get_time returns the last time stamp and get_pva the last row '
+             'of self.trajectory (the row set_pva overwrites and the next call continues from)')
+    c = ctx.repo.klass('strapdown.Integrator')
+    n = 0
+    for mname, attr, what in (('get_time', 'index', 'time stamp'), ('get_pva', 'iloc', 'row')):
+        m = c.methods.get(mname)
+        ctx.need(m is not None, 'Integrator.%s missing' % mname)
+        ctx.single_exit(m)
+        rets = [s for s in ast.walk(m.node) if isinstance(s, ast.Return)]
+        ctx.need(len(rets) == 1 and rets[0].value is not None, 'Integrator.%s: return' % mname)
+        v = rets[0].value
+        # strip value wrappers: float(x), np.asarray(x), x.copy()
+        while True:
+            if isinstance(v, ast.Call) and len(v.args) == 1 and not v.keywords and \
+                    norm_text(v.func) in ('float', 'np.asarray', 'np.float64'):
+                v = v.args[0]
+            elif isinstance(v, ast.Call) and isinstance(v.func, ast.Attribute) and \
+                    v.func.attr == 'copy' and not v.args:
+                v = v.func.value
+            else:
+                break
+        ok_shape = isinstance(v, ast.Subscript) and isinstance(v.value, ast.Attribute)
+        base = v.value if ok_shape else None
+        if ok_shape and base.attr == 'values' and isinstance(base.value, ast.Attribute):
+            base = base.value
+        ctx.need(ok_shape and base.attr in (attr, 'loc') and
+                 norm_text(base.value) == 'self.trajectory',
+                 'Integrator.%s does not return an element of self.trajectory.%s: `%s`'
+                 % (mname, attr, norm_text(rets[0].value)[:60]))
+        sl = v.slice
+        if base.attr == 'loc':
+            # .loc[self.trajectory.index[LAST]]
+            ctx.need(isinstance(sl, ast.Subscript) and
+                     norm_text(sl.value) == 'self.trajectory.index',
+                     'Integrator.%s: label form not recognised' % mname)
+            sl = sl.slice
+        n += 1
+        ctx.ob('LAST-ROW', _is_last(sl, 'self.trajectory'), None,
+               '%s returns the last %s of self.trajectory' % (mname, what), f=m, node=rets[0],
+               key=mname,
+               why='%s returns element `%s` of self.trajectory.%s, not the last %s: callers '
+                   '(filters, chunked integration) continue from a stale state/time'
+                   % (mname, norm_text(sl), attr, what))
+    ctx.floor('LAST-ROW', n, 2, 'accessors')
